@@ -2466,8 +2466,8 @@ impl XmlElement {
             .find(|v| v.as_attribute().unwrap().borrow().local_name() == name)
             .cloned()
         {
-            self.attributes
-                .retain(|v| v.as_attribute().unwrap().borrow().local_name() != name);
+            // exactly that attribute: another one may have the same local name under a different prefix
+            self.attributes.retain(|a| a.id() != v.id());
             v.clear_order();
             v.set_parent_id(None);
             Some(v)
